@@ -20,7 +20,7 @@ var c18Cmds = []string{"deploy", "redeploy-hosts", "rollout-deploy", "rollout-se
 type c18cfg struct {
 	a, b    string
 	clients string // "plain+cookie" | "upgrade+plain" | "held"
-	pre     string // running | paused
+	pre     string // running | paused | flap (probe results of the deployed targets change their state while the commands run)
 }
 
 func (c c18cfg) String() string {
@@ -60,8 +60,16 @@ func c18Do(w *World, cmd string, n int) {
 func c18Body(c c18cfg, controlled bool, leak *map[string]int) func(w *World) {
 	const host = "a.example.com"
 	return func(w *World) {
+		t0 := w.Now()
+		if c.pre == "flap" {
+			// the third probe of the deployed targets (at t0+2 intervals, when the commands start) flips their state, the fourth flips it back
+			w.AddTarget("oa:80", pOK(), pOK(), pRefuse(), pOK())
+			w.AddTarget("ra:80", pOK(), pOK(), p500(), pOK())
+		}
 		for _, n := range []string{"oa:80", "ra:80", "n1:80", "n2:80", "r1:80", "r2:80", "x1:80", "x2:80", "y1:80", "y2:80"} {
-			w.AddTarget(n)
+			if w.Net.Target(n) == nil {
+				w.AddTarget(n)
+			}
 		}
 		if r := w.Deploy(deployArgs("s1", []string{"oa:80"}, []string{host}, nil)); r.Err != nil {
 			w.Note("setup: %v", r.Err)
@@ -93,6 +101,9 @@ func c18Body(c c18cfg, controlled bool, leak *map[string]int) func(w *World) {
 		}
 		if controlled {
 			w.S.SetWindow(true)
+		}
+		if c.pre == "flap" {
+			time.Sleep(t0 + 2*vI - w.Now())
 		}
 		spawn("cmd", func() { c18Do(w, c.a, 1) })
 		spawn("cmd", func() { c18Do(w, c.b, 2) })
@@ -185,6 +196,9 @@ func c18Configs(tier string) []c18cfg {
 			if tier != "quick" || (i+j)%4 == 0 {
 				cfgs = append(cfgs, c18cfg{a, b, "plain+cookie", "paused"})
 			}
+			if tier != "quick" || (i+j)%3 == 1 {
+				cfgs = append(cfgs, c18cfg{a, b, "plain+cookie", "flap"})
+			}
 		}
 	}
 	return cfgs
@@ -265,24 +279,24 @@ func checkC18(t *testing.T, job *Job, res *Result) {
 		res.Gen = &GenStats{Evaluations: 1}
 		return
 	}
-	res.Rule = "engine S: every unordered pair of {deploy, redeploy with other hosts/paths, rollout deploy/set/stop, pause, stop, resume, remove, list, deploy of another service, conflicting deploy} running concurrently on a service with active+rollout targets and a split, with client threads {plain+cookie, established upgrade + slow request, slow + POST, two percentage-decided cookie requests, requests to a sub-path service of the same host}, from running and paused; every schedule within the bounds; monitored: panic in any thread (incl. unlock of an unlocked mutex), deadlock (no thread enabled, none can be woken), hang (command or request unfinished at the horizon); engine H: every command (succeeding and failing) in every state reached by histories up to the depth bound; the data-race clause is covered by a separate free-running -race pass reported under race_pass (not exhaustive)"
+	res.Rule = "engine S: every unordered pair of {deploy, redeploy with other hosts/paths, rollout deploy/set/stop, pause, stop, resume, remove, list, deploy of another service, conflicting deploy} running concurrently on a service with active+rollout targets and a split, with client threads {plain+cookie, established upgrade + slow request, slow + POST, two percentage-decided cookie requests, requests to a sub-path service of the same host}, from running, from paused and with probe results that change the deployed targets' state arriving at the instant the commands start; every schedule within the bounds; monitored: panic in any thread (incl. unlock of an unlocked mutex), deadlock (no thread enabled, none can be woken), hang (command or request unfinished at the horizon); engine H: every command (succeeding and failing) in every state reached by histories up to the depth bound; the data-race clause is covered by a separate free-running -race pass reported under race_pass (not exhaustive)"
 	if job.Replay == nil || job.Replay.Engine == "S" {
 		var scs []*Scenario
 		for i, c := range c18Configs(tier) {
 			sc := c18Scenario(c)
-			if tier == "quick" && i%6 == 0 {
+			if tier == "quick" && i%45 == 0 {
 				sc.Bounds = &Bounds{D: 2, S: 0}
 			}
 			scs = append(scs, sc)
 		}
 		b := Bounds{D: 1, S: 1, Total: 1}
-		res.Bounds = "quick: every configuration with <=1 deviation (thread or stall), every 6th configuration with <=2 thread deviations"
+		res.Bounds = "quick: every configuration with <=1 deviation (thread or stall), every 45th configuration with <=2 thread deviations"
 		if tier == "thorough" {
 			b = Bounds{D: 2, S: 1, Total: 2}
 		}
 		runS(t, job, res, "C18", scs, b, 20000)
 		if tier == "quick" {
-			res.Bounds = "every configuration with <=1 deviation (thread or stall); every 6th configuration with <=2 thread deviations"
+			res.Bounds = "every configuration with <=1 deviation (thread or stall); every 45th configuration with <=2 thread deviations"
 		}
 	}
 	if job.Replay == nil || job.Replay.Engine == "H" {
